@@ -7,16 +7,17 @@ package main
 //   race      - reader goroutines against the inserter in a -race build (exploration, partial)
 import (
 	"errors"
-	"os"
 	"fmt"
 	"math/big"
 	"math/rand"
+	"os"
 
 	"github.com/zenon-network/go-zenon/chain"
 	g "github.com/zenon-network/go-zenon/chain/genesis/mock"
 	"github.com/zenon-network/go-zenon/chain/nom"
 	"github.com/zenon-network/go-zenon/common/db"
 	"github.com/zenon-network/go-zenon/common/types"
+	"github.com/zenon-network/go-zenon/rpc/api/subscribe"
 	"github.com/zenon-network/go-zenon/vm/constants"
 	"github.com/zenon-network/go-zenon/vm/embedded/definition"
 	"github.com/zenon-network/go-zenon/wallet"
@@ -114,10 +115,12 @@ func linkedOnTop(v acctView) bool {
 }
 
 type poolRun struct {
-	nd    *Node
-	rng   *rand.Rand
-	out   *Out
-	users []*wallet.KeyPair
+	nd         *Node
+	rng        *rand.Rand
+	out        *Out
+	users      []*wallet.KeyPair
+	lis        *poolListener
+	subscribed bool // the RPC subscription server is one of the chain's listeners
 }
 
 func (r *poolRun) views() map[types.Address]acctView {
@@ -175,6 +178,28 @@ func poolHistory(rng *rand.Rand, out *Out) {
 	nd := NewNode()
 	defer nd.Stop()
 	r := &poolRun{nd: nd, rng: rng, out: out, users: []*wallet.KeyPair{g.User1, g.User2, g.User3}}
+	// every insert / delete notification of the chain is observed (compete.go)
+	r.lis = &poolListener{r: r}
+	nd.Ch.Register(r.lis)
+	// demonstration of the observation only (never set by the check): with the RPC subscription server among the
+	// listeners the late own momentum ends the process (nil block dereferenced in subscribe.newAccountBlock, then
+	// "fatal error: sync: unlock of unlocked mutex" in AddMomentumTransaction's deferred Unlock)
+	if os.Getenv("C14_SUBSCRIBE") != "" {
+		srv := subscribe.GetSubscribeServer(nd.Ch)
+		srv.Init()
+		srv.Start()
+		defer srv.Stop()
+		r.subscribed = true
+	}
+	defer func() {
+		nd.Ch.UnRegister(r.lis)
+		out.Count(fmt.Sprintf("pool:history:insert-notifications>=%d", min(r.lis.inserts/10*10, 30)))
+		if r.lis.nilBlk > 0 {
+			// OBSERVATION (outside C14's statement, see design.d/C14.md): the insert notification of a momentum the store did
+			// not apply carries nil account blocks (PrefetchMomentum on a store that does not have them)
+			out.Count("observation:insert-event-of-not-applied-momentum-carries-nil-blocks")
+		}
+	}()
 	steps := 40 + rng.Intn(40)
 	bigAt := -1
 	if rng.Intn(3) == 0 {
@@ -203,6 +228,8 @@ func poolHistory(rng *rand.Rand, out *Out) {
 			k = 90 // momentum right after
 		}
 		switch {
+		case k >= 91 && k < 96: // competing producers (compete.go)
+			r.competingProducers()
 		case k < 42: // fast-forward insert, sometimes a contract call that produces contract sends later
 			var tx *nom.AccountBlockTransaction
 			var err error
@@ -222,7 +249,7 @@ func poolHistory(rng *rand.Rand, out *Out) {
 			after := r.checkAll(before, u.Address, true)
 			r.emitStep(bv, opTerm, errClassPool(e), after[u.Address], "fast-forward")
 			out.Oracle(e == nil && len(after[u.Address].pool) == len(bv.pool)+1, "fast-forward-accepted", Tup(fmt.Sprint(e)))
-		case k < 74: // competing block at an occupied pooled height
+		case k < 72: // competing block at an occupied pooled height
 			if len(bv.pool) == 0 {
 				continue
 			}
@@ -284,7 +311,7 @@ func poolHistory(rng *rand.Rand, out *Out) {
 			default:
 				out.Oracle(errClassPool(e) == 2 && unchanged, "replacement-follows-priority-rule", Tup(tag, fmt.Sprint(e), "tie-break"))
 			}
-		case k < 83: // re-insert a pooled block (already inserted), or a bogus block straight into the pool
+		case k < 80: // re-insert a pooled block (already inserted), or a bogus block straight into the pool
 			var tx *nom.AccountBlockTransaction
 			tag := "bogus"
 			if len(bv.pool) > 0 && rng.Intn(2) == 0 {
@@ -337,8 +364,10 @@ func poolHistory(rng *rand.Rand, out *Out) {
 			after := r.checkAll(before, u.Address, true)
 			r.emitStep(bv, opTerm, errClassPool(e), after[u.Address], tag)
 			out.Oracle(sameHashes(after[u.Address].pool, bv.pool), "rejected-block-leaves-pool-unchanged", Tup(tag, fmt.Sprint(e)))
-		case k < 95: // momentum
+		case k < 91: // momentum
+			r.lis.before, r.lis.context = before, "momentum"
 			nd.Momentum()
+			r.lis.before = nil
 			fm, _ := nd.Ch.GetFrontierMomentumStore().GetFrontierMomentum()
 			after := r.checkAll(before, types.Address{}, false)
 			counts := map[types.Address]int{}
